@@ -47,7 +47,7 @@ MODULES = ["LinSolve", "Inverse", "SystemOfEquations", "StaticCondensation"]
 
 
 def budget(tier):
-    return {"examples": 5000 if tier == "quick" else 150000, "shards": 16, "shrink": 300 if tier == "quick" else 1500}
+    return {"examples": 10000 if tier == "quick" else 150000, "shards": 16, "shrink": 300 if tier == "quick" else 1500}
 
 
 # ----------------------------------------------------------------------------------------------------------------
